@@ -11,6 +11,7 @@ mod derive;
 mod docspec;
 mod edit;
 mod lossy;
+mod lossybuild;
 mod pgp;
 mod rel;
 mod relc14;
@@ -63,6 +64,9 @@ fn dispatch(op: &str, args: &[&str]) -> Option<Resp> {
     if let Some(r) = relc14::handle(op, args) {
         return Some(r);
     }
+    if let Some(r) = lossybuild::handle(op, args) {
+        return Some(r);
+    }
     if let Some(r) = typeddoc::handle(op, args) {
         return Some(r);
     }
@@ -95,7 +99,10 @@ fn generate(prop: &str, tier: &str, seed: u64, out: &mut util::Out) {
         }
         "C12" => sat::generate_c12(tier, seed, out),
         "C13" => reledit::generate_c13(tier, seed, out),
-        "C14" => relc14::generate_c14(tier, seed, out),
+        "C14" => {
+            relc14::generate_c14(tier, seed, out);
+            lossybuild::generate_c14_build(tier, seed, out);
+        }
         "C15" => typed::generate_c15(tier, seed, out),
         "C16" => derive::generate_c16(tier, seed, out),
         "C17" => cpr::generate_c17(tier, seed, out),
